@@ -89,8 +89,11 @@ messages = [[("structure", (b"verb", b"arg"))],
             [("byte", b"S"), ("structure", (b"ok",)), ("bytes", b"body e with b and o"), ("bytes", b"")],
             [("structure", (b"x",)), ("byte", b"E"), ("structure", (b"err", b"e"))]]
 nexts = [b"", lp(bencode({})) + b"s" + lp(bencode((b"hello",))) + b"e", b"ebzr"]
-for parts in messages:
+for parts, marker in [(p_, m_) for p_ in messages for m_ in (False, True)]:
     wire1, expect = v3_message(parts)
+    if marker:
+        # the client side: the response starts with the version marker, and short reads may end anywhere inside it
+        wire1 = protocol.MESSAGE_VERSION_THREE + wire1
     for nxt in nexts:
         wire = wire1 + nxt
         for fail_at in [None] + list(range(len(expect))):
@@ -98,7 +101,7 @@ for parts in messages:
             for seg in segs:
                 tried += 1
                 h = Recorder(fail_at)
-                d = protocol.ProtocolThreeDecoder(h, expect_version_marker=False)
+                d = protocol.ProtocolThreeDecoder(h, expect_version_marker=marker)
                 fed = 0
                 for a, b in zip(seg, seg[1:]):
                     nrs = d.next_read_size()
